@@ -22,13 +22,17 @@ def rules_block():
     return "\n".join(out)
 
 def seeded_block():
-    rows = ["| id | property | what was changed | needs | caught by (rule keys) |", "|---|---|---|---|---|"]
+    rows = ["| id | property | what was changed | needs | caught by (rule keys) | when first evaluated |", "|---|---|---|---|---|---|"]
     for d in sorted(glob.glob(os.path.join(V, "seeded", "*/"))):
         m = json.load(open(os.path.join(d, "meta.json")))
         exp = m.get("expected_detection") or {}
         caught = ", ".join(exp.get("keys", [])) if not exp.get("undetected") else "**not detected** — " + exp.get("why", "")
-        rows.append("| %s | %s | %s | %s | %s |" % (os.path.basename(d.rstrip("/")), m.get("property"), (m.get("summary") or "")[:260].replace("|", "\\|").replace("\n", " "),
-                                                    (m.get("needs") or "")[:200].replace("|", "\\|").replace("\n", " "), caught.replace("|", "\\|")))
+        fe = m.get("first_evaluation") or {}
+        first = fe.get("result", "own property" if (exp.get("by_own_property") and not m.get("strengthened_after")) else "")
+        if fe.get("rules_added_or_strengthened_afterwards"):
+            first += "; afterwards: " + fe["rules_added_or_strengthened_afterwards"]
+        rows.append("| %s | %s | %s | %s | %s | %s |" % (os.path.basename(d.rstrip("/")), m.get("property"), (m.get("summary") or "")[:260].replace("|", "\\|").replace("\n", " "),
+                                                    (m.get("needs") or "")[:200].replace("|", "\\|").replace("\n", " "), caught.replace("|", "\\|"), first.replace("|", "\\|")))
     return "\n".join(rows)
 
 def selftest_block():
